@@ -17,7 +17,7 @@
      closed form `ln (gam_half k)`, otherwise a certificate value. *)
 (* NOTE: definitions only; all proofs are in Proofs/C04_*.v *)
 From CV Require Import Base.Tac Base.Cmp.
-From Coq Require Import QArith Reals.
+From Coq Require Import QArith Qabs Reals.
 From Interval Require Import Tactic.
 Local Open Scope R_scope.
 
@@ -205,6 +205,35 @@ Definition gauss_sqrtcov_doc_cert (n : nat) (M : list (list Q)) (y d : list Q) (
 (* refusal of the cov / prec setters: dense non-symmetric input *)
 Definition gauss_dense_refused (f : gform) (n : nat) (M : list (list Q)) : bool :=
   match f with FCov | FPrec => negb (qsym n M) | _ => false end.
+
+(* the symmetry test of the cov / prec setters is numpy.allclose(M, M^T) with the default tolerances
+   rtol = 1e-5, atol = 1e-8:  |a - b| <= atol + rtol |b|  entrywise.  The absolute part makes the refusal depend on
+   the magnitude of the matrix (everything below ~1e-8 passes). *)
+Definition np_close (a b : Q) : bool := Qle_bool (Qabs (a - b)) ((1 # 100000000) + (1 # 100000) * Qabs b).
+Definition np_allclose_tr (n : nat) (M : list (list Q)) : bool := list_eqb (list_eqb np_close) M (qtr n M).
+Definition gauss_sym_refused (f : gform) (n : nat) (M : list (list Q)) : bool :=
+  match f with FCov | FPrec => negb (np_allclose_tr n M) | _ => false end.
+(* the symmetric matrix LAPACK's lower-triangle routines (cholesky) see in a square matrix *)
+Definition qlsym (A : list (list Q)) : list (list Q) :=
+  map (fun ir => map (fun jv => if Nat.leb (fst jv) (fst ir) then snd jv else nth (fst ir) (nth (fst jv) A []) 0)
+                     (combine (seq 0 (length (snd ir))) (snd ir)))
+      (combine (seq 0 (length A)) A).
+(* an ACCEPTED non-symmetric cov / prec (dense branch): logdet from the determinant of the matrix as given,
+   sqrtprec = cholesky of (the lower triangle of) inv(cov) resp. prec.  C: certificate for the full inverse. *)
+Definition gauss_nonsym_cert (f : gform) (n : nat) (M C : list (list Q)) (d : list Q) (dcov quad : Q) : bool :=
+  Qlt_bool 0 dcov &&
+  match f with
+  | FCov => qll_eqb (qmm n M C) (qident n) && Qeq_bool (qdet M) dcov && Qeq_bool (qdotq d (qmv (qlsym C) d)) quad
+  | FPrec => Qeq_bool (qdet M * dcov) 1 && Qeq_bool (qdotq d (qmv (qlsym M) d)) quad
+  | _ => false
+  end.
+(* dense full matrices of dim <= MIN_DIM_SPARSE: the code takes log(numpy.linalg.det(.)); the determinant is a binary64
+   number, so outside the float range it is 0 or inf and the "logdet" is -inf / +inf although ln(det) is an ordinary
+   number (n ln(scale) + ...).  In terms of the determinant dcov of the covariance:  tiny -> logpdf = +inf, huge -> -inf.
+   (2^-1080 / 2^1030: safely outside the range; the generator keeps away from the boundary zone.) *)
+Definition det_underflow (dcov : Q) : bool := Qlt_bool dcov (1 # (2 ^ 1080)).
+Definition det_overflow (dcov : Q) : bool := Qlt_bool (Zpos (2 ^ 1030) # 1) dcov.
+Definition qscale (c : Q) (M : list (list Q)) : list (list Q) := map (map (fun v => Qred (c * v))) M.
 
 (* what happens to an input of a given storage kind (cholmod is not installed):
    value, refusal by the setter, refusal by logpdf (logdet = None), or -- sqrtprec stored in scipy's DIA format with
